@@ -628,6 +628,9 @@ class World:
         self.net.fates.clear()
         self.net.stall_new_links.clear()
         self.net.fin_new_links.clear()
+        for link in self.net.links:
+            if link.transport is not None and link.transport._stalled:
+                link.transport._set_stall(False)
 
     def op_noop(self, step) -> None:
         pass
